@@ -62,7 +62,8 @@ class CTParse:
         )
 
     def __str__(self) -> str:
-        return "{} s={:.3f} p={} sb={} lbl={}".format(self.resolution, self.score, self.production, self.subject, self.labels)
+        score = "None" if self.score is None else "{:.3f}".format(self.score)
+        return "{} s={} p={} sb={} lbl={}".format(self.resolution, score, self.production, self.subject, self.labels)
 
 
 def ctparse(
